@@ -6,3 +6,4 @@ Definition package_level_vars : list string := ["internal/parser/profile/vargene
 Definition genreset_call_sites : list string := ["internal/validator/test_utils.go"].
 Definition sk_genvar : string := "return call Sprintf, call AddInt64".
 Definition sk_get_map_keys : string := "call Map; if err != nil { return }; call make; for { if pending { call append; call delete } }; return".
+Definition normalize_options : list string := [].
